@@ -1,5 +1,6 @@
 // C07 - errors reach the nearest matching handler and leave no residue once handled.
 #include "props/rbase.h"
+#include "props/astutil.h"
 #include "seams/clirun.h"
 #include <regex>
 #include <functional>
@@ -25,6 +26,27 @@ struct C07 : RBase {
     GenKnobs k; k.exceptions = true; k.fault_points = true; k.fault_point_rate = 0.25; k.natural_errors = true; k.natural_error_rate = r.chance(0.5) ? 0.03 : 0.0;
     k.max_depth = 3; k.top_statements = (int)r.range(3, 8); k.functions = (int)r.range(0, 2); k.objects = false; k.returns = r.chance(0.2); k.loop_max_iter = 3;
     return k;
+  }
+  // scenarios of the property's own clauses, in front of the generated skeleton
+  void extra_statements(Rng& r, json& a, GenProgram&) const override {
+    using namespace sim::ast;
+    json& F = a["funcs"]; json& B = a["body"];
+    // a function that raises and handles an error of its own, and one whose stray break / continue must do nothing
+    F.push_back(func("inner7", {{"n", "int"}}, "int", {begin({let("w7", bin("/", ilit(10), var("n")))}, "DIVIDE_BY_ZERO", {let("w7", ilit(-1))}), ret(var("w7"))}));
+    F.push_back(func("stray7", {{"n", "int"}}, "int", {iff(bin(">", var("n"), ilit(1), "bool"), {json{{"k", "break"}}}), iff(bin(">", var("n"), ilit(2), "bool"), {json{{"k", "continue"}}}), ret(bin("+", var("n"), ilit(100)))}));
+    int n = (int)r.range(1, 4);
+    for (int i = 0; i < n; ++i) switch (r.below(5)) {
+      case 0: // the handler still describes its own error after calling a function that handled one of its own
+        B.push_back(begin({raise("E7")}, "E7", {print({slit("h:"), err(1), slit(" "), call("inner7", {ilit(0)}), slit(" "), err(1)})})); break;
+      case 1: B.push_back(begin({let("z7", bin("/", ilit(1), ilit(0)))}, "OTHERS", {print({slit("h:"), err(1), call("inner7", {ilit(r.range(0, 2))}), err(1)}), iff(bin("==", err(1), slit("DIVIDE_BY_ZERO"), "bool"), {print({slit("still dbz")})}, {print({slit("lost")})})})); break;
+      case 2: { // the first matching clause wins, wherever OTHERS stands
+        json b; b["k"] = "begin"; b["body"] = arr({raise(r.chance(0.5) ? "FOO7" : "BAR7")});
+        json h1; h1["n"] = "OTHERS"; h1["body"] = arr({print({slit("others "), err(1)})}); json h2; h2["n"] = "FOO7"; h2["body"] = arr({print({slit("foo "), err(1)})}); json h3; h3["n"] = "BAR7"; h3["body"] = arr({print({slit("bar "), err(1)})});
+        switch (r.below(3)) { case 0: b["handlers"] = arr({h1, h2, h3}); break; case 1: b["handlers"] = arr({h2, h1, h3}); break; default: b["handlers"] = arr({h3, h2, h1}); break; }
+        B.push_back(b); break; }
+      case 3: B.push_back(forl("q7", ilit(1), ilit(3), {print({slit("stray:"), call("stray7", {var("q7")})})})); break;
+      default: B.push_back(forl("q8", ilit(1), ilit(2), {begin({print({call("stray7", {ilit(3)})}), raise("E8")}, "E8", {print({slit("h8 "), err(1), call("stray7", {ilit(2)})})})})); break;
+    }
   }
 };
 
